@@ -36,6 +36,7 @@ type ProbeRec struct {
 	P Probe   `json:"p"`
 	S string  `json:"s"`
 	L []int64 `json:"l"`
+	Z Probe   `json:"z"` // last field: its after-point runs when nothing on the stack needs the record any more
 }
 
 type GCA struct { // maps behind pointers
@@ -71,6 +72,16 @@ type GCC struct { // slices and pointers
 	P1  Probe      `json:"p1"`
 }
 
+type GCE struct { // GC points INSIDE map values while they are being built
+	P0  Probe                       `json:"p0"`
+	MLP map[string][]ProbeRec       `json:"mlp"`
+	MMP map[string]map[string]Probe `json:"mmp"`
+	MPP map[string]*ProbeRec        `json:"mpp"`
+	MLL map[string][][]Probe        `json:"mll"`
+	MLS map[string][]Probe          `json:"mls"`
+	P1  Probe                       `json:"p1"`
+}
+
 type GCD struct { // all of the above behind a pointer, a slice and a map
 	ID int64          `json:"id"`
 	A  *GCA           `json:"a"`
@@ -96,7 +107,13 @@ type probeCodec struct{ avro.BoolCodec }
 
 func (c probeCodec) Read(r *avro.ReadBuf, p unsafe.Pointer) error {
 	gcPoint("probe-read")
-	return c.BoolCodec.Read(r, p)
+	err := c.BoolCodec.Read(r, p)
+	// A second point AFTER the value has been stored: p is dead here, so the
+	// memory being filled is reachable only through whatever the decoder
+	// itself keeps (this is where a value parked in pointer-free scratch
+	// memory is lost).
+	gcPoint("probe-read-after")
+	return err
 }
 
 func (c probeCodec) Skip(r *avro.ReadBuf) error {
@@ -107,6 +124,7 @@ func (c probeCodec) Skip(r *avro.ReadBuf) error {
 func (c probeCodec) Write(w *avro.WriteBuf, p unsafe.Pointer) {
 	gcPoint("probe-write")
 	c.BoolCodec.Write(w, p)
+	gcPoint("probe-write-after")
 }
 
 func init() {
@@ -114,7 +132,7 @@ func init() {
 		return probeCodec{}, nil
 	})
 	avro.RegisterSchema(reflect.TypeFor[Probe](), avro.Schema{Type: "boolean"})
-	for _, d := range []*TypeDesc{desc[GCA]("GCA", false, true), desc[GCB]("GCB", false, true), desc[GCC]("GCC", false, false), desc[GCD]("GCD", false, true), desc[GCF]("GCF", true, false)} {
+	for _, d := range []*TypeDesc{desc[GCA]("GCA", false, true), desc[GCB]("GCB", false, true), desc[GCC]("GCC", false, false), desc[GCD]("GCD", false, true), desc[GCE]("GCE", false, true), desc[GCF]("GCF", true, false)} {
 		d.GCOnly = true
 		addType(d)
 	}
@@ -162,6 +180,9 @@ func gcPoint(kind string) {
 		s.inGC = true
 		s.fired.Inc("GC(" + kind + ")")
 		runtime.GC()
+		for i := 0; i < 8; i++ {
+			runtime.Gosched() // let the finalizer goroutine run (it is part of what a collection does)
+		}
 		doChurn(s.churn)
 		if s.onGC != nil {
 			s.onGC(kind, s.pt)
@@ -239,6 +260,11 @@ type C11Plan struct {
 	// Project reads into a target without the map/slice fields' siblings
 	// (decode only): exercises Skip paths with probes.
 	Project bool `json:"project,omitempty"`
+	// DropBanks (decode only): the callback keeps the records but drops their
+	// banks without ever closing them, and the file is read a second time
+	// while the first batch is still held (a bank that is never closed must
+	// never be recycled, whatever the collector does in between).
+	DropBanks bool `json:"drop_banks,omitempty"`
 }
 
 type c11Prop struct{}
@@ -276,9 +302,9 @@ func (c11Prop) Generate(seed uint64, idx int, tier string) *Plan {
 	if r.P(1, 4) {
 		pl.Dir = "encode"
 	}
-	types := []string{"GCA", "GCA", "GCB", "GCB", "GCC", "GCC", "GCD", "GCD", "GCF", "Maps", "Slices", "Ptrs", "Mixed", "Nested"}
+	types := []string{"GCA", "GCA", "GCB", "GCB", "GCC", "GCC", "GCD", "GCD", "GCE", "GCE", "GCE", "GCF", "Maps", "Slices", "Ptrs", "Mixed", "Nested"}
 	if pl.Dir == "encode" {
-		types = []string{"GCA", "GCB", "GCB", "GCC", "GCD", "GCD", "Maps", "Mixed"}
+		types = []string{"GCA", "GCB", "GCB", "GCC", "GCD", "GCD", "GCE", "GCE", "Maps", "Mixed"}
 	}
 	fs := genFileSpec(r, types, pl.Dir == "decode", 8)
 	if fs.N == 0 {
@@ -308,6 +334,9 @@ func (c11Prop) Generate(seed uint64, idx int, tier string) *Plan {
 	pl.Churn = ChurnSpec{N: r.PickInt([]int{3, 10, 30}), ByteSizes: []int{8, 16, 24, 32, 48, 64, 96, 128, 208, 416}, PtrLens: []int{1, 2, 3, 4, 6, 8, 13, 16, 32}, MapEntries: []int{0, 1, 2, 5, 9, 20}}
 	if pl.Dir == "decode" && strings.HasPrefix(fs.Type, "GC") && fs.Type != "GCF" {
 		pl.Project = r.P(1, 5)
+	}
+	if pl.Dir == "decode" {
+		pl.DropBanks = r.P(1, 4)
 	}
 	return &Plan{Prop: "C11", Seed: seed, Idx: idx, Tier: tier, C11: pl}
 }
@@ -382,6 +411,9 @@ func (c11Prop) Execute(p *Plan, run *Run) any {
 	}()
 	run.Evals++
 	total := schedA.pt + 2*len(A) // + close points
+	if pl.DropBanks {
+		total = 2 * schedA.pt // two passes, no closes
+	}
 	run.Log.Add("A n=%d err=%v points=%d", len(A), errA != nil, total)
 	if panA != nil || errA != nil {
 		run.Probes.Inc("skipped:run-A-fails")
@@ -405,13 +437,13 @@ func (c11Prop) Execute(p *Plan, run *Run) any {
 		if violated {
 			return
 		}
-		run.Sig("%s|decode|%s|%s|%s|proj:%v", pl.File.Type, kind, thirds(pt, total), churnClass, pl.Project)
+		run.Sig("%s|decode|%s|%s|%s|proj:%v|drop:%v", pl.File.Type, kind, thirds(pt, total), churnClass, pl.Project, pl.DropBanks)
 		for i := closedUpTo; i < len(held); i++ {
 			var ok bool
 			var where string
 			pan := func() (pan any) {
 				defer func() { pan = recover() }()
-				ok, where = EqualNorm(A[i], held[i])
+				ok, where = EqualNorm(A[i%len(A)], held[i])
 				return nil
 			}()
 			if pan != nil {
@@ -437,18 +469,32 @@ func (c11Prop) Execute(p *Plan, run *Run) any {
 		}()
 		rd := NewDiskReader(bf.Bytes, pl.Chunks)
 		rd.Yield = gcPoint
-		errB = avro.ReadFile(rd, reflect.New(target).Elem().Interface(), func(val unsafe.Pointer, rb *avro.ResourceBank) error {
-			rec := reflect.New(target).Elem()
-			rec.Set(reflect.NewAt(target, val).Elem())
-			held = append(held, rec)
-			banks = append(banks, rb)
-			if len(held) > len(A) {
-				return fmt.Errorf("more records than run A")
+		passes := 1
+		if pl.DropBanks {
+			passes = 2
+		}
+		for pass := 0; pass < passes && errB == nil; pass++ {
+			if pass > 0 {
+				rd = NewDiskReader(bf.Bytes, pl.Chunks)
+				rd.Yield = gcPoint
 			}
-			gcPoint("callback")
-			return nil
-		})
-		gcPoint("after-readfile")
+			n := 0
+			errB = avro.ReadFile(rd, reflect.New(target).Elem().Interface(), func(val unsafe.Pointer, rb *avro.ResourceBank) error {
+				rec := reflect.New(target).Elem()
+				rec.Set(reflect.NewAt(target, val).Elem())
+				held = append(held, rec)
+				if !pl.DropBanks {
+					banks = append(banks, rb)
+				}
+				n++
+				if n > len(A) {
+					return fmt.Errorf("more records than run A")
+				}
+				gcPoint("callback")
+				return nil
+			})
+			gcPoint("after-readfile")
+		}
 		return nil, ""
 	}()
 	run.Evals++
@@ -468,7 +514,11 @@ func (c11Prop) Execute(p *Plan, run *Run) any {
 		run.Violation("c11/panic-under-gc", siteB, fmt.Sprintf("run B (with collections) panicked where run A did not: %v", panB), nil)
 		return nil
 	}
-	if errB != nil || len(held) != len(A) {
+	wantHeld := len(A)
+	if pl.DropBanks {
+		wantHeld = 2 * len(A)
+	}
+	if errB != nil || len(held) != wantHeld {
 		run.Violation("c11/result-differs-under-gc", "readfile", fmt.Sprintf("run B (with collections) delivered %d records, err=%v; run A delivered %d, err=nil", len(held), errB, len(A)), nil)
 		return nil
 	}
@@ -659,6 +709,9 @@ func (c11Prop) Shrink(p *Plan) []*Plan {
 	}
 	if pl.Project {
 		mut(func(q *C11Plan) { q.Project = false })
+	}
+	if pl.DropBanks {
+		mut(func(q *C11Plan) { q.DropBanks = false })
 	}
 	if !(len(pl.Chunks.Sizes) == 1 && pl.Chunks.Sizes[0] == 1<<20) {
 		mut(func(q *C11Plan) { q.Chunks = ChunkSpec{Sizes: []int{1 << 20}} })
